@@ -871,6 +871,13 @@ func (r *resolver) expandAugment(y *Augment, parent Meta) error {
 	for _, orig := range y.DataDefinitions() {
 		var err error
 		d := orig.(cloneable).clone(target).(Definition)
+		if y.when != nil {
+			// RFC 7950 7.17: the augment's when guards the nodes it adds
+			if hasWhen, valid := d.(HasWhen); valid && hasWhen.When() == nil {
+				w := *y.when
+				hasWhen.setWhen(&w)
+			}
+		}
 		if targetIsChoice {
 			if cs, isCase := d.(*ChoiceCase); isCase {
 				if on, ferr := checkFeature(cs); ferr != nil {
